@@ -44,12 +44,14 @@ func DHSecrets(size int, thorough bool, seed int64) []Named {
 	return out
 }
 
-// RunDH: KeyGen on every secret; Shared on secrets x publics. A case of Shared is one public value,
-// its digest covers every secret (output bytes and the ok flag).
-func RunDH(c *T, f *DH, secrets, publics []Named) {
+// RunDH: KeyGen on every secret (plus the honest exchange with three fixed peers); Shared on
+// sharedSecrets x publics. A case of Shared is one public value, its digest covers every secret
+// (output bytes and the ok flag).
+func RunDH(c *T, f *DH, secrets, sharedSecrets, publics []Named) {
 	r := c.R
 	r.Set("dh", f.Name)
 	r.Set("secrets", len(secrets))
+	r.Set("secrets_used_with_every_peer_value", len(sharedSecrets))
 	r.Set("publics", len(publics))
 	n := len(secrets) + len(publics)
 	verifmc.ParallelFor(n, func(i int) {
@@ -71,7 +73,7 @@ func RunDH(c *T, f *DH, secrets, publics []Named) {
 		}
 		u := publics[i-len(secrets)]
 		c.Case("Shared#u="+u.Name, func(d *D) {
-			for _, s := range secrets {
+			for _, s := range sharedSecrets {
 				d.Exec(1)
 				ss, ok := f.Shared(s.V, u.V)
 				d.Bytes(s.Name, ss)
